@@ -376,7 +376,7 @@ class Pedigree(Optimality):
             # 4 columns: k = floor(sqrt(4)) = 2, columns are dropped in the forward pass and recomputed in the backtrace,
             # with a different symbolic recombination cost per column
             out.append(trio(4, [(2, (0, 1, 2, 3))], [[H] * 4, [H] * 4, [H] * 4], W=15, Rc=15))
-            out.append(trio(4, [(2, (0, 1)), (2, (2, 3))], [[H] * 4, [H] * 4, [H] * 4], W=15, Rc=15))
+
             # Mendelian conflict in column 1: father 0/0, mother 0/0, child 0/1
             out.append(trio(2, [(2, (0, 1))], [[H, (0, 0)], [H, (0, 0)], [H, H]], W=15, Rc=15))
         else:
@@ -386,6 +386,8 @@ class Pedigree(Optimality):
             for gf, gm, gc in itertools.product([(0, 0), H, (1, 1)], repeat=3):
                 out.append(trio(2, [(2, (0, 1))], [[H, gf], [H, gm], [H, gc]], W=31, Rc=31))
             out.append(trio(2, [(2, (0, 1)), (2, (0, 1))], allhet, W=31, Rc=31, distrust=True, G=31))
+            out.append(trio(4, [(2, (0, 1, 2, 3))], [[H] * 4, [H] * 4, [H] * 4], W=31, Rc=31))
+            out.append(trio(4, [(2, (0, 1)), (2, (2, 3))], [[H] * 4, [H] * 4, [H] * 4], W=31, Rc=31))
         return out
 
     def bounds(self, tier):
